@@ -2,6 +2,7 @@
 
 #include <crab/domains/abstract_domain.hpp>
 #include <crab/domains/abstract_domain_specialized_traits.hpp>
+#include <crab/domains/backward_assign_operations.hpp>
 #include <crab/support/debug.hpp>
 #include <crab/support/os.hpp>
 #include <string>
@@ -559,19 +560,19 @@ public:
 
   void backward_assign(const variable_t &x, const linear_expression_t &e,
                        const fixed_tvpi_domain_t &invariant) override {
-    CRAB_WARN(domain_name(), "::backward_assign not implemented");
+    BackwardAssignOps<fixed_tvpi_domain_t>::assign(*this, x, e, invariant);
   }
 
   void backward_apply(arith_operation_t op, const variable_t &x,
                       const variable_t &y, number_t z,
                       const fixed_tvpi_domain_t &invariant) override {
-    CRAB_WARN(domain_name(), "::backward_apply not implemented");
+    BackwardAssignOps<fixed_tvpi_domain_t>::apply(*this, op, x, y, z, invariant);
   }
 
   void backward_apply(arith_operation_t op, const variable_t &x,
                       const variable_t &y, const variable_t &z,
                       const fixed_tvpi_domain_t &invariant) override {
-    CRAB_WARN(domain_name(), "::backward_apply not implemented");
+    BackwardAssignOps<fixed_tvpi_domain_t>::apply(*this, op, x, y, z, invariant);
   }
 
   DEFAULT_SELECT(fixed_tvpi_domain_t)
